@@ -147,7 +147,8 @@ structure Tbl where
   curPartID : Nat := 0
   liveEpoch : Nat := 0           -- garbageCleaner
   deletable : List Nat := []
-  held : List (List Nat) := []   -- part ids of snapshots still referenced by a reader
+  held : List (List Nat) := []   -- file-part ids of snapshots still referenced by a reader (a memory part's
+                                 -- wrapper is replaced at flush, so holding it does not pin the file part)
   zombies : List Nat := []       -- removable file parts whose directory still exists
   acked : List Nat := []         -- ghost: batches acknowledged so far
   deriving Repr
@@ -201,7 +202,7 @@ def opSteps (t : Tbl) : Op → List Step × Tbl
     let gone := chosen.map (·.id)
     let t1 := { t with parts := t.parts.filter (fun p => !gone.contains p.id) ++ [⟨id, bs, false⟩],
                        curPartID := id, epoch := t.epoch + 1,
-                       held := if hold then t.held ++ [t.ids] else t.held,
+                       held := if hold then t.held ++ [(t.parts.filter (fun p => !p.mem)).map (·.id)] else t.held,
                        zombies := t.zombies ++ gone }
     let (s2, t2) := publish t1
     let (s3, t3) := reap t2
